@@ -69,18 +69,18 @@ Qed.
     exception class, for rule lists of any length. *)
 Theorem basic_rule_max_class rs r :
   get_dns_basic_rule rs = Some r ->
-  In r (remove_badfilter rs) /\
-  forall r', In r' (remove_badfilter rs) -> (rule_class r' <= rule_class r)%nat.
+  In r (basic_candidates rs) /\
+  forall r', In r' (basic_candidates rs) -> (rule_class r' <= rule_class r)%nat.
 Proof.
   unfold get_dns_basic_rule. intros H.
-  pose proof (fold_pick_spec (remove_badfilter rs) None) as Hs. rewrite H in Hs.
+  pose proof (fold_pick_spec (basic_candidates rs) None) as Hs. rewrite H in Hs.
   destruct Hs as ([Hin|Hin] & Hmax & _); [|discriminate]. split; assumption.
 Qed.
 
-Theorem basic_rule_none rs : get_dns_basic_rule rs = None <-> remove_badfilter rs = [].
+Theorem basic_rule_none rs : get_dns_basic_rule rs = None <-> basic_candidates rs = [].
 Proof.
   unfold get_dns_basic_rule. split.
-  - intros H. pose proof (fold_pick_spec (remove_badfilter rs) None) as Hs. rewrite H in Hs. tauto.
+  - intros H. pose proof (fold_pick_spec (basic_candidates rs) None) as Hs. rewrite H in Hs. tauto.
   - intros ->. reflexivity.
 Qed.
 
@@ -92,3 +92,75 @@ Proof. unfold remove_badfilter. intros ->. reflexivity. Qed.
     rules that match the request. *)
 Lemma match_all_spec rs q r : In r (match_all rs q) <-> In r (net_rules rs) /\ nrule_match q r = true.
 Proof. unfold match_all. apply filter_In. Qed.
+
+(** A candidate for the basic rule survives $badfilter and carries no
+    $dnsrewrite: rewrite rules never block or allow by themselves. *)
+Lemma basic_candidates_spec rs r :
+  In r (basic_candidates rs) <-> In r (remove_badfilter rs) /\ nr_drw r = None.
+Proof.
+  unfold basic_candidates, remove_drw. rewrite filter_In. unfold has_drw.
+  destruct (nr_drw r); cbn; split; intros [H1 H2]; split; congruence.
+Qed.
+
+(** * The in-place loop of DNSRewrites never runs out of fuel *)
+
+Lemma remove_nth_length {A} i (l : list A) : (length (remove_nth i l) <= length l)%nat.
+Proof. revert i; induction l as [|x l IH]; intros [|i]; cbn; try lia. specialize (IH i). lia. Qed.
+
+Lemma remove_nth_lt {A} i (l : list A) : (i < length l)%nat -> (length (remove_nth i l) < length l)%nat.
+Proof. revert i; induction l as [|x l IH]; intros [|i]; cbn; try lia. intros H. specialize (IH i). lia. Qed.
+
+Lemma filter_length_le {A} (f : A -> bool) l : (length (filter f l) <= length l)%nat.
+Proof. induction l as [|x l IH]; cbn; [lia|]. destruct (f x); cbn; lia. Qed.
+
+Lemma rme_length l exc : (length (remove_matching_exception l exc) <= length l)%nat.
+Proof.
+  unfold remove_matching_exception. destruct (drw_is_zero _); [destruct (nr_important exc); cbn; [lia|]|]; apply filter_length_le.
+Qed.
+
+Lemma drw_loop_fuel fuel : forall i l, (length l - i < fuel)%nat -> drw_loop fuel i l <> None.
+Proof.
+  induction fuel as [|fuel IH]; intros i l H; [lia|]. cbn [drw_loop].
+  destruct (nth_error l i) as [nr|] eqn:E; [|discriminate].
+  assert (Hi : (i < length l)%nat) by (apply nth_error_Some; congruence).
+  destruct (nr_white nr).
+  - apply IH. pose proof (rme_length (remove_nth i l) nr). pose proof (remove_nth_lt i l Hi). lia.
+  - apply IH. lia.
+Qed.
+
+(** So [dns_rewrites] is the loop's result, never the out-of-fuel default. *)
+Theorem dns_rewrites_total dr :
+  exists l, drw_loop (S (length (filter has_drw (dr_all dr)))) 0 (filter has_drw (dr_all dr)) = Some l /\
+            dns_rewrites dr = l.
+Proof.
+  unfold dns_rewrites.
+  destruct (drw_loop _ 0 _) as [l|] eqn:E; [exists l; split; reflexivity|].
+  exfalso. revert E. apply drw_loop_fuel. lia.
+Qed.
+
+(** What the loop returns is a sub-multiset of the matching $dnsrewrite
+    rules: nothing is invented. *)
+Lemma remove_nth_In {A} i (l : list A) x : In x (remove_nth i l) -> In x l.
+Proof. revert i; induction l as [|y l IH]; intros [|i]; cbn; auto. intros [->|H]; [left; reflexivity | right; eapply IH; exact H]. Qed.
+
+Lemma rme_In l exc x : In x (remove_matching_exception l exc) -> In x l.
+Proof.
+  unfold remove_matching_exception. destruct (drw_is_zero _); [destruct (nr_important exc); [intros []|]|];
+    intros H; apply filter_In in H; tauto.
+Qed.
+
+Lemma drw_loop_In fuel : forall i l l' x, drw_loop fuel i l = Some l' -> In x l' -> In x l.
+Proof.
+  induction fuel as [|fuel IH]; intros i l l' x; cbn [drw_loop]; [discriminate|].
+  destruct (nth_error l i) as [nr|]; [|intros [= <-]; auto].
+  destruct (nr_white nr); intros H Hx.
+  - eapply remove_nth_In, rme_In, IH; eassumption.
+  - eapply IH; eassumption.
+Qed.
+
+Theorem dns_rewrites_sound dr r :
+  In r (dns_rewrites dr) -> In r (dr_all dr) /\ has_drw r = true.
+Proof.
+  destruct (dns_rewrites_total dr) as (l & Hl & ->). intros H.
+  apply (drw_loop_In _ _ _ _ _ Hl), filter_In in H. exact H.
+Qed.
